@@ -88,6 +88,19 @@ func c04Inputs(g *Gen, n int) [][]byte {
 		add([]byte(`{"type":"Mention","href":"https://example.com/l","height":` + num + `,"width":` + num + `}`))
 		add([]byte(`{"type":"Question","id":"https://example.com/q","closed":` + num + `,"oneOf":["https://example.com/1"],"anyOf":["https://example.com/2"]}`))
 	}
+	// well-formed documents whose item-valued properties hold degenerate values (empty list, list of nothing, empty
+	// object, null, empty string): what comes back must still be inspectable property by property
+	for _, deg := range []string{"[]", "[null]", "[{}]", "{}", "null", "\"\"", "[[]]", "[\"\"]"} {
+		for _, tn := range []string{"Note", "Create", "Person", "Question", "Arrive", "Collection", "OrderedCollectionPage", "Relationship", "Tombstone", "Profile", "Place"} {
+			doc := `{"type":"` + tn + `","id":"https://example.com/d"`
+			for _, term := range []string{"attachment", "attributedTo", "audience", "context", "generator", "icon", "image", "inReplyTo", "location", "preview", "replies", "tag", "url", "to", "bto", "cc", "bcc", "likes", "shares",
+				"actor", "object", "target", "result", "origin", "instrument", "oneOf", "anyOf", "inbox", "outbox", "following", "followers", "liked", "streams", "current", "first", "last", "items", "orderedItems", "partOf", "next", "prev",
+				"subject", "relationship", "describes", "formerType"} {
+				doc += `,"` + term + `":` + deg
+			}
+			add([]byte(doc + "}"))
+		}
+	}
 	add(bytes.Repeat([]byte("["), 100000))
 	add(bytes.Repeat([]byte("{\"a\":"), 50000))
 	add([]byte(strings.Repeat("{\"object\":", 280) + "\"https://example.com/x\"" + strings.Repeat("}", 280)))
@@ -230,7 +243,104 @@ func c04Followups(v any) (what string) {
 	_, _ = ap.GobEncode(it)
 	what = "fmt(item)"
 	_ = fmt.Sprintf("%v %s", it, it)
+	// inspecting a value includes looking at what its properties hold: every item-valued property, and every member
+	// of a list in one, three levels down, through the package's own inspection helpers
+	var walk func(x ap.Item, path string, depth int)
+	walk = func(x ap.Item, path string, depth int) {
+		what = "IsNil(" + path + ")"
+		isNil := ap.IsNil(x)
+		what = "NotEmpty(" + path + ")"
+		_ = ap.NotEmpty(x)
+		what = "ItemsEqual(" + path + "," + path + ")"
+		_ = ap.ItemsEqual(x, x)
+		if x == nil {
+			return
+		}
+		for _, h := range c04Inspectors {
+			what = fmt.Sprintf("%s(%s = %T)", h.name, path, x)
+			_ = h.fn(x)
+		}
+		what = "DerefItem(" + path + ")"
+		members := ap.DerefItem(x)
+		if isNil || depth == 0 {
+			return
+		}
+		what = fmt.Sprintf("methods of %s = %T", path, x)
+		_, _, _, _, _ = x.GetID(), x.GetType(), x.GetLink(), x.IsObject(), x.IsCollection()
+		if len(members) > 1 || ap.IsItemCollection(x) {
+			for i, m := range members {
+				if i < 4 {
+					walk(m, fmt.Sprintf("%s[%d]", path, i), depth-1)
+				}
+			}
+			return
+		}
+		xv := reflect.ValueOf(x)
+		if xv.Kind() == reflect.Pointer {
+			xv = xv.Elem()
+		}
+		if xv.Kind() != reflect.Struct {
+			return
+		}
+		for i := 0; i < xv.NumField(); i++ {
+			f := xv.Field(i)
+			name := path + "." + xv.Type().Field(i).Name
+			switch {
+			case f.Type() == reflect.TypeOf(ap.ItemCollection(nil)):
+				// a list-typed field that is unset is a nil slice, not an item somebody was handed: members only
+				if f.Len() > 0 {
+					walk(f.Interface().(ap.ItemCollection), name, depth-1)
+				}
+			case f.Kind() == reflect.Interface && !f.IsNil():
+				if fx, ok := f.Interface().(ap.Item); ok {
+					walk(fx, name, depth-1)
+				}
+			}
+		}
+	}
+	walk(it, "v", 3)
 	return ""
+}
+
+type c04Inspector struct {
+	name string
+	fn   func(ap.Item) error
+}
+
+var c04Inspectors = []c04Inspector{
+	{"OnObject", func(x ap.Item) error { return ap.OnObject(x, func(*ap.Object) error { return nil }) }},
+	{"OnActivity", func(x ap.Item) error { return ap.OnActivity(x, func(*ap.Activity) error { return nil }) }},
+	{"OnIntransitiveActivity", func(x ap.Item) error {
+		return ap.OnIntransitiveActivity(x, func(*ap.IntransitiveActivity) error { return nil })
+	}},
+	{"OnQuestion", func(x ap.Item) error { return ap.OnQuestion(x, func(*ap.Question) error { return nil }) }},
+	{"OnActor", func(x ap.Item) error { return ap.OnActor(x, func(*ap.Actor) error { return nil }) }},
+	{"OnLink", func(x ap.Item) error { return ap.OnLink(x, func(*ap.Link) error { return nil }) }},
+	{"OnPlace", func(x ap.Item) error { return ap.OnPlace(x, func(*ap.Place) error { return nil }) }},
+	{"OnProfile", func(x ap.Item) error { return ap.OnProfile(x, func(*ap.Profile) error { return nil }) }},
+	{"OnRelationship", func(x ap.Item) error { return ap.OnRelationship(x, func(*ap.Relationship) error { return nil }) }},
+	{"OnTombstone", func(x ap.Item) error { return ap.OnTombstone(x, func(*ap.Tombstone) error { return nil }) }},
+	{"OnCollection", func(x ap.Item) error { return ap.OnCollection(x, func(*ap.Collection) error { return nil }) }},
+	{"OnCollectionPage", func(x ap.Item) error { return ap.OnCollectionPage(x, func(*ap.CollectionPage) error { return nil }) }},
+	{"OnOrderedCollection", func(x ap.Item) error {
+		return ap.OnOrderedCollection(x, func(*ap.OrderedCollection) error { return nil })
+	}},
+	{"OnOrderedCollectionPage", func(x ap.Item) error {
+		return ap.OnOrderedCollectionPage(x, func(*ap.OrderedCollectionPage) error { return nil })
+	}},
+	{"OnItemCollection", func(x ap.Item) error {
+		return ap.OnItemCollection(x, func(c *ap.ItemCollection) error {
+			if c != nil {
+				for range *c {
+				}
+			}
+			return nil
+		})
+	}},
+	{"OnCollectionIntf", func(x ap.Item) error {
+		return ap.OnCollectionIntf(x, func(c ap.CollectionInterface) error { return nil })
+	}},
+	{"OnItem", func(x ap.Item) error { return ap.OnItem(x, func(ap.Item) error { return nil }) }},
 }
 
 func runC04(seed int64, n int, tier string, outDir string) (*Report, error) {
